@@ -7,6 +7,7 @@
 //!   (kind <reply>)                                   ErrorKind::from(reply), directly
 //!   (seq <objs> <ops> <groups> <wbudget>)            one thread, scripted server
 //!   (gated <objs> <progs> (sched t*))                2..8 real threads, controlled schedule, echo server
+//!   (timed <withhold ms> <b after ms>)              thread A waits for a withheld reply, thread B calls meanwhile
 //!   (free <objs> <progs> <seed>)                     2..8 real threads running freely (random yields,
 //!                                                    retry while busy), echo server
 //!
@@ -129,6 +130,9 @@ impl Call {
 const MARK_IOERR: u8 = 0x01;
 const MARK_RESET: u8 = 0x02;
 const BLOCK_TIMEOUT_MS: u64 = 250;
+/// every case runs on a worker thread; one that has not finished by then is reported as `(timeout N)`
+const CASE_DEADLINE_S: u64 = 8;
+static STUCK_EVENTS: std::sync::atomic::AtomicUsize = std::sync::atomic::AtomicUsize::new(0);
 
 thread_local! {
     static WORKER_ID: Cell<usize> = Cell::new(usize::MAX);
@@ -273,10 +277,14 @@ impl Ctl {
         let before = st.acks[t];
         st.go[t] = true;
         self.cv.notify_all();
-        let deadline = std::time::Instant::now() + Duration::from_secs(3);
+        // good code reaches its next stable point within microseconds; once operations have been seen to
+        // block a few times in this run, do not spend seconds on every further case
+        let wait = if STUCK_EVENTS.load(Ordering::SeqCst) >= 3 { Duration::from_millis(100) } else { Duration::from_secs(2) };
+        let deadline = std::time::Instant::now() + wait;
         while st.acks[t] == before {
             let now = std::time::Instant::now();
             if now >= deadline {
+                STUCK_EVENTS.fetch_add(1, Ordering::SeqCst);
                 return false;
             }
             let (g, _) = self.cv.wait_timeout(st, deadline - now).unwrap();
@@ -502,6 +510,10 @@ fn echo_server(sv: UnixStream) -> std::thread::JoinHandle<Vec<Vec<u8>>> {
                     }
                     let v: Value = serde_json::from_slice(&buf).unwrap_or(Value::Null);
                     log.push(buf);
+                    // a slow method: the reply is withheld for `delay` ms
+                    if let Some(d) = v.get("parameters").and_then(|p| p.get("delay")).and_then(|d| d.as_u64()) {
+                        std::thread::sleep(Duration::from_millis(d));
+                    }
                     let mut out = Vec::new();
                     for f in echo_frames(&v) {
                         out.extend_from_slice(serde_json::to_string(&f).unwrap().as_bytes());
@@ -620,9 +632,20 @@ fn is_blocked(res: &Sx) -> bool {
 }
 
 fn slots_sx(conn: &Arc<RwLock<Connection>>) -> Sx {
-    let c = match conn.read() {
-        Ok(c) => c,
-        Err(p) => p.into_inner(),
+    // never wait for ever for the lock: an implementation that keeps it while blocked must not wedge the harness
+    let patience = if STUCK_EVENTS.load(Ordering::SeqCst) >= 3 { 50 } else { 500 };
+    let deadline = std::time::Instant::now() + Duration::from_millis(patience);
+    let c = loop {
+        match conn.try_read() {
+            Ok(c) => break c,
+            Err(std::sync::TryLockError::Poisoned(p)) => break p.into_inner(),
+            Err(std::sync::TryLockError::WouldBlock) => {
+                if std::time::Instant::now() > deadline {
+                    return sx::tagged("slots", vec![sx::atom("-"), sx::atom("-")]);
+                }
+                std::thread::sleep(Duration::from_millis(1));
+            }
+        }
     };
     sx::tagged("slots", vec![sx::boolean(c.reader.is_some()), sx::boolean(c.writer.is_some())])
 }
@@ -764,8 +787,8 @@ fn run_gated(input: &Sx) -> Sx {
         }
     }
     // observe, then stop: release everybody
-    let slots = slots_sx(&rig.conn);
     let snapshot: Vec<Sx> = trace.lock().unwrap().clone();
+    let slots = slots_sx(&rig.conn);
     {
         let mut st = ctl.st.lock().unwrap();
         st.abort = true;
@@ -1533,6 +1556,10 @@ impl Suite for ClientSuite {
             let (c, tags) = gen_gated(&mut rng);
             cases.push(Case { input: c, tags });
         }
+        // the deterministic shape "B calls while A waits for a withheld reply" (real time)
+        for (w, b) in [(600usize, 50usize), (450, 100)] {
+            cases.push(Case { input: sx::tagged("timed", vec![sx::nat(w), sx::nat(b)]), tags: vec!["timed:busy-while-reply-withheld".into()] });
+        }
         for _ in 0..n_free {
             let (c, tags) = gen_free(&mut rng);
             cases.push(Case { input: c, tags });
@@ -1541,12 +1568,78 @@ impl Suite for ClientSuite {
     }
 
     fn run(&self, _ctx: &Ctx, input: &Sx) -> Sx {
-        match input.as_list().and_then(|l| l.first()).and_then(|a| a.as_atom()) {
-            Some("kind") => run_kind(input),
-            Some("seq") => run_seq(input),
-            Some("gated") => run_gated(input),
-            Some("free") => run_free(input),
-            _ => sx::atom("unknown-case-kind"),
+        // the case body runs on its own thread with a deadline: a stuck case is an observation, and its
+        // threads (own connection, own peer) are left behind without disturbing the following cases
+        let inp = input.clone();
+        let (tx, rx) = std::sync::mpsc::channel();
+        std::thread::spawn(move || {
+            let r = std::panic::catch_unwind(std::panic::AssertUnwindSafe(|| run_case(&inp)));
+            let _ = tx.send(r);
+        });
+        match rx.recv_timeout(Duration::from_secs(CASE_DEADLINE_S)) {
+            Ok(Ok(o)) => o,
+            Ok(Err(e)) => std::panic::resume_unwind(e),
+            Err(_) => sx::tagged("timeout", vec![sx::nat(CASE_DEADLINE_S as usize)]),
         }
     }
+}
+
+fn run_case(input: &Sx) -> Sx {
+    match input.as_list().and_then(|l| l.first()).and_then(|a| a.as_atom()) {
+        Some("kind") => run_kind(input),
+        Some("seq") => run_seq(input),
+        Some("gated") => run_gated(input),
+        Some("free") => run_free(input),
+        Some("timed") => run_timed(input),
+        _ => sx::atom("unknown-case-kind"),
+    }
+}
+
+/// (timed <withhold ms> <b after ms>): thread A calls a method whose reply the peer withholds; thread B calls
+/// on the shared connection while A waits.  B must be refused at once — long before A's reply exists.
+/// Observation: (timed-obs (a <res>) (b <res> fast|slow) (log <req>*) (slots r w))
+fn run_timed(input: &Sx) -> Sx {
+    let l = input.as_list().unwrap();
+    let withhold = l[1].as_usize().unwrap() as u64;
+    let b_after = l[2].as_usize().unwrap() as u64;
+    let rig = rig(None, None);
+    // the reply is withheld on purpose: the "would block" watchdog of the other case kinds must not fire
+    let _ = rig.client_end.set_read_timeout(Some(Duration::from_secs(4)));
+    let server = echo_server(rig.server_end.try_clone().unwrap());
+    let conn_a = rig.conn.clone();
+    let blocked_a = rig.blocked.clone();
+    let a = std::thread::spawn(move || {
+        let mut objs: HashMap<usize, Call> = HashMap::new();
+        objs.insert(0, Call::new(conn_a, "org.example.client.Slow".into(), ReqArg::V(json!({"token": "A", "thread": 0, "delay": withhold})), false));
+        exec_op_caught(&mut objs, &Op::Call(0), &blocked_a)
+    });
+    std::thread::sleep(Duration::from_millis(b_after));
+    let conn_b = rig.conn.clone();
+    let blocked_b = rig.blocked.clone();
+    let (tx, rx) = std::sync::mpsc::channel();
+    std::thread::spawn(move || {
+        let mut objs: HashMap<usize, Call> = HashMap::new();
+        objs.insert(1, Call::new(conn_b, "org.example.client.Echo".into(), ReqArg::V(json!({"token": "B", "thread": 1})), false));
+        let t0 = std::time::Instant::now();
+        let r = exec_op_caught(&mut objs, &Op::Call(1), &blocked_b);
+        let _ = tx.send((r, t0.elapsed()));
+    });
+    // "at once": well before the withheld reply can exist
+    let limit = Duration::from_millis((withhold - b_after) * 2 / 3);
+    let (rb, speed) = match rx.recv_timeout(Duration::from_secs(4)) {
+        Ok((r, el)) => (r, if el < limit { "fast" } else { "slow" }),
+        Err(_) => (sx::atom("blocked"), "slow"),
+    };
+    let ra = a.join().unwrap_or(sx::atom("panic"));
+    let slots = slots_sx(&rig.conn);
+    let _ = rig.client_end.shutdown(Shutdown::Both);
+    drop(rig.conn);
+    drop(rig.server_end);
+    let log = server.join().unwrap_or_default();
+    let mut logsx = vec![sx::atom("log")];
+    logsx.extend(log.iter().map(|f| req_sx(f)));
+    sx::tagged(
+        "timed-obs",
+        vec![sx::tagged("a", vec![ra]), sx::tagged("b", vec![rb, sx::atom(speed)]), sx::list(logsx), slots],
+    )
 }
